@@ -132,7 +132,7 @@ def run(ctx):
     for _ in range(n):
         if rng.random() < 0.5:
             # configurators, a third of them with items listed directly under the configurator (in no rule)
-            a, o, t = valid_configurator(rng, ctx.quick, top_items=True)
+            a, o, t = valid_configurator(rng, ctx.quick, top_items=True, multi_default_p=0.15)
         else:
             a, o, t = gen_valid(rng, ctx.quick, wide_p=0.0)
             if not free01(t): continue
